@@ -971,7 +971,7 @@ def make_cases(rng, notes):
     bench_only = r < 0.3
     lib = rng.choice(VLIBS + ['PRIM', 'PRIM'] + (['BENCH'] if bench_only else []))
     nl = gen.gen_netlist(rng, lib, bench_only=bench_only)
-    if lib != 'BENCH' and rng.random() < (0.8 if lib == 'PRIM' else 0.4):     # the fragment of C11.verilog_parsed_sem: assigns as buffers, constants as tie cells
+    if lib != 'BENCH' and rng.random() < 0.25:     # a netlist without assign statements and constants: assigns as buffers, constants as tie cells
         nl2 = to_fragment(rng, nl)
         if nl2 is not None:
             nl = nl2; notes['netlists rewritten into the parsed_sem fragment'] = notes.get('netlists rewritten into the parsed_sem fragment', 0) + 1
